@@ -114,7 +114,7 @@ var parkedStates = map[string]bool{
 	"chan receive": true, "chan send": true, "select": true, "sync.Cond.Wait": true,
 	"semacquire": true, "sync.Mutex.Lock": true, "IO wait": true, "sync.WaitGroup.Wait": true,
 	"chan receive (nil chan)": true, "chan send (nil chan)": true, "select (no cases)": true,
-	"sync.RWMutex.RLock": true, "sync.RWMutex.Lock": true, "sleep": true, "finalizer wait": true,
+	"sync.RWMutex.RLock": true, "sync.RWMutex.Lock": true, "sleep": false, "finalizer wait": true,
 	"GC assist wait": false, "syscall": true, "trace reader (blocked)": true, "debug call": true,
 	"GC worker (idle)": true, "GC sweep wait": true, "GC scavenge wait": true, "force gc (idle)": true,
 }
